@@ -44,3 +44,10 @@ CASES += [
     dict(id='c04-eq-arg-file-loop-not-fail', prop='C04', file='src/library/prog_args/handler.cpp', expect=None,
          old="   while (std::getline( progArgs, line))", new="   while (!std::getline( progArgs, line).fail())"),
 ]
+
+CASES += [
+    dict(id='c04-lambda-captures-param-by-ref', prop='C04', file='src/library/prog_args/handler.cpp', expect='R10',
+         old="         [&, full=full]( auto const& help_arg_key, bool)", new="         [&]( auto const& help_arg_key, bool)"),
+    dict(id='c04-eq-lambda-explicit-copy', prop='C04', file='src/library/prog_args/handler.cpp', expect=None,
+         old="         [&, full=full]( auto const& help_arg_key, bool)", new="         [this, full]( auto const& help_arg_key, bool)"),
+]
